@@ -202,7 +202,7 @@ pub fn run(args: &Args) -> i32 {
                     let mut ev = Evidence::new();
                     let mut sources: Vec<Ipv4Addr> = (0..nsrc).map(|_| gen_source(&mut rng)).collect();
                     sources.push(Ipv4Addr::new(127, 0, 0, 1));
-                    let f = gen_filter(&mut rng, &sources);
+                    let f = vcommon::filter::gen_filter_indexed(&mut rng, &sources, i);
                     let Some(filter) = to_rodbus(&f) else {
                         ev.inconclusive(format!("canonical wildcard string did not parse: {f:?}"));
                         return ev;
